@@ -10,6 +10,13 @@ display), with sys.monitoring yield injection on the main time thread's
 `_seconds` getter, RtMain._update_logical_time and the TempoClock run loop and
 a 50 us switch interval.
 
+Error paths followed by continued use: every few ticks the periodic tasks
+schedule a one-shot task an eighth of a period later that reads the clock like
+the others and then ends badly (a function or a routine raising an exception,
+raising StopStream, handing back a non-delta); the clock logs and goes on.  The
+wake-up that runs next - on this or another clock - is judged like every
+other; a deviation there is keyed '.../right-after-task-ending-with-<how>'.
+
 Oracle: during a wake-up scheduled for beat b every reading of clock.beats is b
 (1e-9 relative + 1e-9 absolute: b went through beats -> seconds -> beats), for a
 quantised task b is the grid point the reference oracle (vf/c12_model.py)
@@ -27,6 +34,9 @@ from vf import c12_model as M
 from vf.common import iter_cases, case_rng, h64, derive_seed
 
 KEY = 'C12/beats-differ-inside-wakeup/concurrent-reader'
+KEY_AFTER = 'C12/beats-differ-inside-wakeup/right-after-task-ending-with-'
+FAULTS = ['function:raise', 'routine:raise', 'function:stopstream',
+          'routine:value', 'function:value']
 
 
 def tol(e):
@@ -44,6 +54,11 @@ class Round:
         self.stop = False
         self.clocks = []
         self.desc = []
+        self.prev_end = 'return'    # how the event just before this one ended
+
+    def take_prev(self):
+        prev, self.prev_end = self.prev_end, 'return'
+        return prev
 
     def n(self, k, v=1):
         self.counts[k] = self.counts.get(k, 0) + v
@@ -62,10 +77,15 @@ class Round:
         out.append(('secs2beats(seconds)', clk.secs2beats(s)))
         return out, s
 
-    def judge(self, kind, clk, expected, reads, secs, extra=None):
+    def judge(self, kind, clk, expected, reads, secs, extra=None,
+              prev='return'):
         self.n('wakeups_checked')
         self.n('wakeups_checked_' + kind)
         self.n('beat_reads_inside_wakeups', len(reads))
+        if prev != 'return':
+            self.n('wakeups_checked_right_after_' + prev)
+            extra = dict(extra or {}, previous_event_ended_with=prev,
+                         key=KEY_AFTER + prev)
         for what, got in reads:
             if abs(got - expected) > tol(expected):
                 if self.bad is None:
@@ -82,22 +102,59 @@ class Round:
                 self.bad = dict(task=kind, scheduled_beat=expected,
                                 reading='seconds', got=secs, want=want_s,
                                 off_by=secs - want_s, tempo=clk.tempo)
+                if extra:
+                    self.bad.update(extra)
             return False
         return True
 
     # task factories ------------------------------------------------------
-    def make_func(self, clk, start, delta, ticks, work):
+    def sched_failing(self, clk, beat, how, work):
+        """One-shot task on `beat` that reads the clock and then ends badly."""
+        me = self
+        self.pending[0] += 1
+        shape, _, end = how.partition(':')
+
+        def body(c):
+            me.wake_seq[0] += 1
+            prev = me.take_prev()
+            reads, s = me.readings(c, work)
+            me.judge('ending-badly', c, beat, reads, s, prev=prev)
+            me.pending[0] -= 1
+            me.n('tasks_ending_with_' + end)
+            me.prev_end = end
+            if end == 'raise':
+                raise RuntimeError('C12 user code failing')
+            if end == 'stopstream':
+                raise me.sc.StopStream
+            return 'not a delta'
+
+        if shape == 'routine':
+            def rbody(inval):
+                v = body(inval[1])
+                yield v
+            task = self.sc.Routine(rbody)
+        else:
+            def task(fn, c):
+                return body(c)
+        clk.sched_abs(beat, task)
+
+    def make_func(self, clk, start, delta, ticks, work, faults=()):
         st = {'e': start, 'k': 0}
         self.pending[0] += 1
 
         def tick():
             self.wake_seq[0] += 1
+            prev = self.take_prev()
             reads, s = self.readings(clk, work)
-            ok = self.judge('function', clk, st['e'], reads, s)
+            ok = self.judge('function', clk, st['e'], reads, s, prev=prev)
+            if ok and faults and st['k'] % 5 == 2 and st['k'] < ticks - 2:
+                self.sched_failing(clk, st['e'] + delta / 8,
+                                   faults[(st['k'] // 5) % len(faults)], work)
             st['k'] += 1
             st['e'] = st['e'] + delta       # the clock's own arithmetic
             if not ok or st['k'] >= ticks or self.stop:
                 self.pending[0] -= 1
+                self.prev_end = 'value'     # no delta: not rescheduled
                 return None
             return delta
         return tick
@@ -108,6 +165,7 @@ class Round:
 
         def body(*_):
             me.wake_seq[0] += 1
+            prev = me.take_prev()
             reads, s = me.readings(clk, work)
             b1 = reads[0][1]
             me.pending[0] -= 1
@@ -121,11 +179,14 @@ class Round:
                                   reference_beat=ref, reading=reads[0][0],
                                   got=b1, grid=why[1], tempo=clk.tempo,
                                   all_readings=reads)
+                    if prev != 'return':
+                        me.bad.update(previous_event_ended_with=prev,
+                                      key=KEY_AFTER + prev)
                 return
             pp = p if p >= 0 else p + q
             g = round((b1 - pp) / q) * q + pp
             me.judge(kind, clk, g, reads, s,
-                     dict(quant=q, phase=p, reference_beat=ref))
+                     dict(quant=q, phase=p, reference_beat=ref), prev=prev)
         if as_routine:
             def rbody(inval):
                 body()
@@ -142,8 +203,9 @@ class Round:
             e = start
             for k in range(ticks):
                 me.wake_seq[0] += 1
+                prev = me.take_prev()
                 reads, s = me.readings(c, work)
-                ok = me.judge('routine', c, e, reads, s)
+                ok = me.judge('routine', c, e, reads, s, prev=prev)
                 if not ok or me.stop:
                     break
                 if quants and k % 4 == 1 and k < ticks - 8:
@@ -157,6 +219,7 @@ class Round:
                 e = e + delta
                 yield delta
             me.pending[0] -= 1
+            me.prev_end = 'gen-end'     # runs off its end
         return self.sc.Routine(gen)
 
     # ----------------------------------------------------------------------
@@ -174,15 +237,16 @@ class Round:
             quants.append((q, rng.choice([0.5, 0.25, -0.25, -0.5]) * q))
             with sc.main._main_lock:
                 start = math.ceil(clk.beats) + math.ceil(0.05 * tempo) + 1.0
+                faults = rng.sample(FAULTS, 3) + ['function:raise']
                 clk.sched_abs(start, self.make_func(
-                    clk, start, delta, ticks, rng.randint(1, 9)))
+                    clk, start, delta, ticks, rng.randint(1, 9), faults))
                 clk.sched_abs(start + delta / 2, self.make_func(
                     clk, start + delta / 2, delta, ticks, rng.randint(1, 9)))
                 clk.sched_abs(start + delta / 4, self.make_routine(
                     clk, start + delta / 4, delta, ticks, rng.randint(1, 9),
                     quants))
             self.desc.append(dict(tempo=tempo, delta=delta, ticks=ticks,
-                                  start=start, quants=quants))
+                                  start=start, quants=quants, faults=faults))
 
 
 def run_rtc(spec, acc, sc):
@@ -257,7 +321,8 @@ def run_rtc(spec, acc, sc):
             if unfinished:
                 acc.count('rtc_rounds_unfinished')
             if rnd.bad is not None:
-                acc.violation(KEY, {'case': i, 'round': rnd.desc,
+                acc.violation(rnd.bad.pop('key', KEY),
+                              {'case': i, 'round': rnd.desc,
                                     'readers': nreaders, 'detail': rnd.bad})
             elif acc.want_sample():
                 acc.sample({'case': i, 'round': rnd.desc, 'readers': nreaders,
